@@ -41,7 +41,7 @@ MANIFEST = dict(
          'within the timeout when the sentinel is not ready) is sampled on real children only; in real-child histories '
          'the oracles are set from the driver-controlled state of each child (running / sentinel orphaned / ended); for '
          'forkserver histories the fork world automaton is the reference (status chosen to decode to `seen`). sys.exit()/sys.exit(None) report 1 (CPython: 0) and '
-         'sys.exit("msg") reports 0 (CPython: 1): modelled as the code behaves, outside the property statement (D18).',
+         'sys.exit("msg") reports 0 (CPython: 1): modelled as the code behaves, outside the property statement (D18). Grandchildren (a fork / spawn / forkserver child starting fork / spawn children) are validated on real processes only (harness/nested_driver.py); forkserver.py itself is not modelled.',
     technique='Coq proof over translator-regenerated kernels + differential correspondence + exhaustive status sweep + real children',
     ref='5.19',
 )
